@@ -75,7 +75,9 @@ def selector(case, l, kind):
         dh = case.newdim(f"D:{sl}:{name}sub:{ty}:{','.join(sel)}")
         return f"d:${dh}", (sl, name + "sub", ty, sel)
     if kind == "list":
-        return f"l:{','.join(sel)}", (l, name, ty, its)   # dims_out keeps the full dimension
+        # a list, or a one-shot iterable (generator expression, filter, reversed …) of the same items
+        form = "g" if r.random() < 0.3 else "l"
+        return f"{form}:{','.join(sel)}", (l, name, ty, its)   # dims_out keeps the full dimension
     raise ValueError(kind)
 
 
